@@ -168,7 +168,7 @@ pub fn c19_flatstack_columns_zero() {
     sym::forget((fs, twin));
 }
 
-// @h prop=C19 tier=quick kind=proof inst="FlatStack<ConsecutiveIndexPairs<OwnedRegion<u8>>, IndexOptimized>: reserve and extend on a populated stack" bounds="2 copies, reserve(4), extend of 2 more items (2, 1, 0, 3 symbolic bytes)" desc="pre-sizing and extending a stack whose indices are a pure stride still spends zero heap bytes (used and capacity) on its own indices"
+// @h memw=4 prop=C19 tier=quick kind=proof inst="FlatStack<ConsecutiveIndexPairs<OwnedRegion<u8>>, IndexOptimized>: reserve and extend on a populated stack" bounds="2 copies, reserve(4), extend of 2 more items (2, 1, 0, 3 symbolic bytes)" desc="pre-sizing and extending a stack whose indices are a pure stride still spends zero heap bytes (used and capacity) on its own indices"
 #[cfg_attr(kani, kani::proof, kani::unwind(6))]
 pub fn c19_flatstack_reserve_extend_zero() {
     let items = [Bytes::<3>::any_len(2), Bytes::<3>::any_len(1), Bytes::<3>::any_len(0), Bytes::<3>::any_len(3)];
